@@ -21,6 +21,11 @@ SLO_TRUST = [
     "environment contract of logout_handler_refines (EnvOK, StorageWF): a decoder / storage call that reports no error hands back a non-nil value, and registered service providers have an SPSSODescriptor (NewServiceProvider refuses others); checker.go itself stays a hand translation (Model.Checker, fingerprints + exhaustive chk correspondence, C20)",
 ]
 
+AQ_TRUST = [
+    "Model.AttrQuery is a hand-written model of attributeQueryHandleFunc and of the filter of makeAttributeQueryResponse. Tie 1 (proof): both are translated by go2lean on every run (chain handler: closures as Go.Clo over the handler frame, eight Go.Step, CheckFailed() = Go.runChain) and AttrQueryGen.attrquery_handler_refines proves that, for every answer of the environment (GetMetadata, ReadAll(r.Body), xml.DecodeAttributeQuery, GetServiceProvider, ValidateAttributeQuerySignature, SetUserinfoWithLoginName with its filled argument, the key getter, createPostSignature, the write error, time.Now / Format, NewID as typed oracles), the regenerated handler panics where the model panics, answers HTTP 500 where it does, and otherwise writes one SOAP envelope whose response carries exactly AttrQuery.attrQuery's answer on the input read off from the same answers (and never a malformed envelope); makeAttributeQueryResponse_refines proves the generated nested filter loop equal to AttrQuery.filterAttrs. Tie 2 (correspondence): the aq differential",
+    "environment contract of attrquery_handler_refines (EnvOK): GetServiceProvider / SetUserinfoWithLoginName that report no error hand back a non-nil service provider / leave the attribute record non-nil",
+]
+
 PROPS = {
     "C15": {
         "modules": ["SamlModel.Props.C15"],
@@ -123,11 +128,11 @@ PROPS = {
         "assumptions": ["SpWF: registered metadata has an SPSSODescriptor (NewServiceProvider refuses metadata without one)"],
     },
     "C12": {
-        "modules": ["SamlModel.Props.C12", "SamlModel.Props.Stateless"],
+        "modules": ["SamlModel.Props.C12", "SamlModel.Props.AttrQueryGen", "SamlModel.Props.AttrQueryProps", "SamlModel.Props.Stateless"],
         "translated": ["verifyRequestDestinationOfAttrQuery", "certificateCheckNecessary", "checkCertificate", "signaturePostProvided",
-                       "ServiceProvider_GetEntityID", "Attributes_GetSAML", "Attributes_GetNameID", "getResponseCert"],
-        "trusted_base": COMMON_TRUST + [
-            "Model.AttrQuery is a hand-written model of attributeQueryHandleFunc and of the filter of makeAttributeQueryResponse: tied by theorem C12_source_current (regenerated chain skeleton = snapshot, fingerprints) and by the aq correspondence",
+                       "ServiceProvider_GetEntityID", "Attributes_GetSAML", "Attributes_GetNameID", "getResponseCert",
+                       "makeAttributeQueryResponse", "IdentityProvider_attributeQueryHandleFunc"],
+        "trusted_base": COMMON_TRUST + AQ_TRUST + [
             "SOAP/XML decoding and XML-DSig validation of the query (ValidateAttributeQuerySignature: etree + goxmldsig) are oracles sampled with real keys",
         ],
         "assumptions": ["duplicates in the query may duplicate answer entries; the filter is specified as a set (C12_filter_spec), as the property's quantifier says"],
@@ -183,7 +188,7 @@ PROPS = {
         "assumptions": ["callback: 'registered' is by composition with the SSO theorem - the stored pair is the pair the SSO endpoint persisted (C02_sso_persists_registered_pair); storage is trusted to return what was stored"],
     },
     "C10": {
-        "modules": ["SamlModel.Props.C10", "SamlModel.Props.HandlerGen", "SamlModel.Props.SendBack", "SamlModel.Props.LogoutProps", "SamlModel.Props.Stateless"],
+        "modules": ["SamlModel.Props.C10", "SamlModel.Props.HandlerGen", "SamlModel.Props.SendBack", "SamlModel.Props.LogoutProps", "SamlModel.Props.AttrQueryProps", "SamlModel.Props.Stateless"],
         "translated": ["getResponseCert"],
         "trusted_base": COMMON_TRUST + SSO_TRUST + CB_TRUST + [
             "Model.Metadata (metadata / certificate / readiness handlers), Model.Logout, Model.AttrQuery: hand models tied by fingerprints and their correspondences",
@@ -204,11 +209,11 @@ PROPS = {
                         "hunsigned (C11_want_signed_means_refused): the XML-DSig validator rejects a document without signature (goxmldsig; sampled)"],
     },
     "C09": {
-        "modules": ["SamlModel.Props.C09", "SamlModel.Props.HandlerGen", "SamlModel.Props.SendBack", "SamlModel.Props.LogoutProps", "SamlModel.Props.Stateless"],
+        "modules": ["SamlModel.Props.C09", "SamlModel.Props.HandlerGen", "SamlModel.Props.SendBack", "SamlModel.Props.LogoutProps", "SamlModel.Props.AttrQueryProps", "SamlModel.Props.Stateless"],
         "translated": ["certificateCheckNecessary", "checkCertificate", "equalCertificateText", "checkRequestRequiredContent", "verifyRequestDestinationOfAuthRequest",
                        "verifyRequestDestinationOfAttrQuery", "GetCertsFromKeyDescriptors", "getResponseCert", "GetAcsUrlAndBindingForResponse",
                        "signaturePostProvided", "signatureRedirectVerificationNecessary", "signaturePostVerificationNecessary", "verifyRedirectSignature", "verifyPostSignature"],
-        "trusted_base": COMMON_TRUST + SSO_TRUST + CB_TRUST + SLO_TRUST + [
+        "trusted_base": COMMON_TRUST + SSO_TRUST + CB_TRUST + SLO_TRUST + AQ_TRUST + [
             "go2lean's panic guards: every pointer dereference / nil-able selector of the translated Go code is emitted as an explicit `if <nil condition> then .panic`; the guard derivation itself is validated by the differential fn/handler ops (model and implementation must agree on panic vs. no panic)",
             "no theorem about panics inside encoding/xml, etree, goxmldsig, compress/flate, html/template, crypto: they are oracles in the model and are exercised by the structural-edit and byte-mutation generators",
         ],
